@@ -373,6 +373,164 @@ func collectPartials(p *pkgInfo) []partialCount {
 	return ret
 }
 
+// partialTotals: the partial operations of the whole package that no syntactic pattern shows to be safe.
+// Not counted: `args[<literal>]` (the arity theorem funcTable_arity covers them), `x[i]` inside a loop
+// `for i := range x` / `for i := …; i < len(x); i++` over the same `x`, and lookups in identifiers that
+// are declared as maps (a map lookup never panics).  The obligation in Lean is an upper bound, so moving
+// code between functions, extracting helpers or merging duplicated branches does not disturb it; an
+// ADDED unguarded index, slice, type assertion or division does.
+func collectPartialTotals(p *pkgInfo) (index, slice, assert, div int) {
+	maps := map[string]bool{}
+	isMapExpr := func(e ast.Expr) bool {
+		switch x := e.(type) {
+		case *ast.CompositeLit:
+			_, ok := x.Type.(*ast.MapType)
+			return ok
+		case *ast.CallExpr:
+			if id, ok := x.Fun.(*ast.Ident); ok && id.Name == "make" && len(x.Args) > 0 {
+				_, ok := x.Args[0].(*ast.MapType)
+				return ok
+			}
+		}
+		return false
+	}
+	for _, f := range p.files {
+		ast.Inspect(f, func(n ast.Node) bool {
+			switch s := n.(type) {
+			case *ast.ValueSpec:
+				if _, ok := s.Type.(*ast.MapType); ok {
+					for _, nm := range s.Names {
+						maps[nm.Name] = true
+					}
+				}
+				for i, v := range s.Values {
+					if i < len(s.Names) && isMapExpr(v) {
+						maps[s.Names[i].Name] = true
+					}
+				}
+			case *ast.AssignStmt:
+				for i, v := range s.Rhs {
+					if i < len(s.Lhs) && isMapExpr(v) {
+						if id, ok := s.Lhs[i].(*ast.Ident); ok {
+							maps[id.Name] = true
+						}
+					}
+				}
+			case *ast.Field:
+				if _, ok := s.Type.(*ast.MapType); ok {
+					for _, nm := range s.Names {
+						maps[nm.Name] = true
+					}
+				}
+			}
+			return true
+		})
+	}
+	var names []string
+	for k := range p.funcs {
+		names = append(names, k)
+	}
+	sort.Strings(names)
+	for _, fn := range names {
+		fd := p.funcs[fn]
+		if fd.Body == nil {
+			continue
+		}
+		commaOK := map[*ast.TypeAssertExpr]bool{}
+		safeIdx := map[*ast.IndexExpr]bool{}
+		ast.Inspect(fd.Body, func(n ast.Node) bool {
+			switch s := n.(type) {
+			case *ast.AssignStmt:
+				if len(s.Lhs) == 2 && len(s.Rhs) == 1 {
+					if ta, ok := s.Rhs[0].(*ast.TypeAssertExpr); ok {
+						commaOK[ta] = true
+					}
+					if ix, ok := s.Rhs[0].(*ast.IndexExpr); ok {
+						safeIdx[ix] = true // v, ok := m[k]: only maps have this form
+					}
+				}
+			case *ast.ValueSpec:
+				if len(s.Names) == 2 && len(s.Values) == 1 {
+					if ta, ok := s.Values[0].(*ast.TypeAssertExpr); ok {
+						commaOK[ta] = true
+					}
+				}
+			case *ast.TypeSwitchStmt:
+				ast.Inspect(s.Assign, func(m ast.Node) bool {
+					if ta, ok := m.(*ast.TypeAssertExpr); ok && ta.Type == nil {
+						commaOK[ta] = true
+					}
+					return true
+				})
+			case *ast.RangeStmt:
+				if id, ok := s.Key.(*ast.Ident); ok && id.Name != "_" {
+					base := nodeText(p, s.X)
+					ast.Inspect(s.Body, func(m ast.Node) bool {
+						if ix, ok := m.(*ast.IndexExpr); ok {
+							if k, ok := ix.Index.(*ast.Ident); ok && k.Name == id.Name && nodeText(p, ix.X) == base {
+								safeIdx[ix] = true
+							}
+						}
+						return true
+					})
+				}
+			case *ast.ForStmt:
+				// for i := …; i < len(x); i++ { … x[i] … }
+				if be, ok := s.Cond.(*ast.BinaryExpr); ok && be.Op == token.LSS {
+					if id, ok := be.X.(*ast.Ident); ok {
+						if call, ok := be.Y.(*ast.CallExpr); ok && len(call.Args) == 1 {
+							if fnid, ok := call.Fun.(*ast.Ident); ok && fnid.Name == "len" {
+								base := nodeText(p, call.Args[0])
+								ast.Inspect(s.Body, func(m ast.Node) bool {
+									if ix, ok := m.(*ast.IndexExpr); ok {
+										if k, ok := ix.Index.(*ast.Ident); ok && k.Name == id.Name && nodeText(p, ix.X) == base {
+											safeIdx[ix] = true
+										}
+									}
+									return true
+								})
+							}
+						}
+					}
+				}
+			}
+			return true
+		})
+		ast.Inspect(fd.Body, func(n ast.Node) bool {
+			switch s := n.(type) {
+			case *ast.IndexExpr:
+				if safeIdx[s] {
+					return true
+				}
+				if id, ok := s.X.(*ast.Ident); ok {
+					if maps[id.Name] {
+						return true
+					}
+					if lit, ok := s.Index.(*ast.BasicLit); ok && lit.Kind == token.INT && id.Name == "args" {
+						return true
+					}
+				}
+				if sel, ok := s.X.(*ast.SelectorExpr); ok && maps[sel.Sel.Name] {
+					return true
+				}
+				index++
+			case *ast.SliceExpr:
+				slice++
+			case *ast.TypeAssertExpr:
+				if !commaOK[s] {
+					assert++
+				}
+			case *ast.BinaryExpr:
+				if s.Op == token.QUO || s.Op == token.REM {
+					div++
+				}
+			}
+			return true
+		})
+	}
+	return
+}
+
 func genInventory(p *pkgInfo) string {
 	var b strings.Builder
 	b.WriteString("/- GENERATED by /verif/extract from the Go sources of /repo — do not edit. -/\n")
@@ -426,6 +584,10 @@ func genInventory(p *pkgInfo) string {
 		}
 		fmt.Fprintf(&b, "  (%s, %d, %d, %d, %d)%s\n", leanStr(c.fn), c.index, c.slice, c.assert, c.div, sep)
 	}
-	b.WriteString("]\n\nend Kvql.Generated\n")
+	b.WriteString("]\n\n")
+	ti, ts, ta, td := collectPartialTotals(p)
+	b.WriteString("/-- package totals of the partial operations no syntactic pattern shows to be safe: (index, slice, type assertion, `/ %`) -/\n")
+	fmt.Fprintf(&b, "def partialTotals : Nat × Nat × Nat × Nat := (%d, %d, %d, %d)\n", ti, ts, ta, td)
+	b.WriteString("\nend Kvql.Generated\n")
 	return b.String()
 }
